@@ -15,6 +15,8 @@ def fresh_mtime(eng, w, path):
     (writes are metadata-visible; the other case is C13's subject)."""
     seen = w.__dict__.setdefault('mtimes_seen', {})
     mt = eng.fresh_int('xmt', 0, 2 ** 62)
+    if not getattr(w, 'distinct_mtimes', True):
+        return mt
     lst = seen.setdefault(path, [])
     rel = w.rel(path)
     if rel in w.vars and not lst:
